@@ -47,14 +47,16 @@ def main():
 class Client:
     """one zygote per (process, module); restarted if it died"""
 
-    def __init__(self, module):
+    def __init__(self, module, env=None):
         self.module = module
+        self.env = env or {}  # e.g. {"PYTHONHASHSEED": "3"}: the same questions under another interpreter configuration
         self.proc = None
 
     def _start(self):
         import subprocess
         from harness.core import VERIF_DIR, REPO_DIR
         env = dict(os.environ, PYTHONPATH=os.pathsep.join([VERIF_DIR, REPO_DIR, os.path.join(VERIF_DIR, ".deps")]))
+        env.update(self.env)
         self.proc = subprocess.Popen([sys.executable, "-W", "ignore", "-m", "harness.zygote", self.module], stdin=subprocess.PIPE, stdout=subprocess.PIPE,
                                      env=env, cwd=VERIF_DIR, text=True, bufsize=1)
         hello = json.loads(self.proc.stdout.readline() or "{}")
